@@ -149,3 +149,18 @@ def minimise(binary, env, prop, cfg, mode, run, path, budget_s=90, log=print):
     except OSError:
         pass
     return 'ok' if _cls(check) == want else 'nondeterministic'
+
+
+def forced_replay(binary, env, prop, cfg, mode, run, path):
+    """a failure of the fault enumeration: seed + one forced I/O fault; nothing to minimise"""
+    idx = run['index']
+    c, k = (idx % 10000) // 10, idx % 10
+    kinds = [1, 2, 3, 4]
+    names = {1: 'short count', 2: 'EINTR', 3: 'EAGAIN', 4: 'EIO'}
+    with open(path, 'w') as f:
+        f.write('# dsim replay v1 -- re-run with: /verif/check --replay %s [-v]\n# mode %s\n' % (path, mode))
+        f.write('# fault enumeration: %s forced at intercepted I/O call %d of the otherwise fault-free run of this seed\n' % (names[kinds[k]], c))
+        f.write('# violation: %s clause=%s\n# message: %s\n' % (run['verdict'], run['clause'], run.get('msg', '')[:400]))
+        f.write('property %s\ncfg %s\nseed %d\ntape force\n-1 iofault %d %d\nend\n' % (prop, cfg, run['seed'], c, kinds[k]))
+    res = _run(binary, env, ['replay', path])
+    return 'ok' if (res['verdict'], res['clause']) == (run['verdict'], run['clause']) else 'nondeterministic'
